@@ -48,9 +48,9 @@ def step : P Sx := do
 def steps : P (List Sx) :=
   (do let n ← identifier; pure [n])
   <|> (do let _ ← tok "LeftParen"; ws; let n1 ← identifier; ws; comma; ws; let n2 ← identifier; ws
-          let _ ← sepBy (do comma; ws; identifier) ws
+          let nr ← sepBy (do comma; ws; identifier) ws
           ws; let _ ← tok "RightParen"
-          pure [n1, n2])
+          pure ([n1, n2] ++ nr))
 
 def transition : P Sx := do
   let _ ← tok "Transition"; ws
